@@ -368,6 +368,7 @@ def gen_minvar(rng, tier):
     n = rng.range(sample, sample * 3 + 2)
     thr = Fr(rng.choice([1, 2, 4, 8, 16, 32]), 64)
     base = [Fr(2 ** rng.range(3, 8)) for _ in range(nobj)]
+    scale = Fr(2) ** rng.choice([0, 0, 0, 0, -30, -52, -60, -100, -250, 40, 200])
     for i in range(n):
         g = start + i
         if mode == 0:
@@ -387,6 +388,9 @@ def gen_minvar(rng, tier):
         if rng.chance(1, 12):
             g += rng.range(1, 3)
             start += 1
+        # objectives of tiny / huge absolute magnitude: the coefficient of variation does not depend on the scale, and a power of two
+        # scales every f64 operation of get_variance_mean / get_cv exactly (no underflow: |x| >= 2^-270, squares >= 2^-560)
+        fit = [x * scale for x in fit]
         steps.append({'gen': g, 'phase': rng.choice([0, 1, 2, 2]), 'fit': None if rng.chance(1, 15) else sb(bits(float(x)) for x in fit)})
     if mode == 0 and rng.chance(2, 5):
         thr = thr + rng.choice([-1, 1]) * Fr(1, 2 ** 40)
@@ -861,6 +865,9 @@ def classify(c, impl):
             labs.append('reward:nonzero-duration-observed')
     if c['op'] == 'minvar' and 'panic' not in impl:
         labs.append('minvar-fired=%s' % any(impl['fired']))
+        mags = [abs(fr(x)) for st in c['steps'] if st['fit'] for x in st['fit'] if fr(x) != 0]
+        if mags:
+            labs.append('minvar-magnitude=%s' % ('tiny(<2^-40)' if max(mags) < Fr(1, 2 ** 40) else 'huge(>2^40)' if max(mags) > 2 ** 40 else 'ordinary'))
         exp = minvar_expect(c)
         labs.append('minvar-all-steps-certain=%s' % all(e[1] for e in exp))
     return labs
